@@ -4,5 +4,6 @@ import BevySyncModel.Props.C12
 import BevySyncModel.Props.C13
 import BevySyncModel.Props.C14
 import BevySyncModel.Props.C02
+import BevySyncModel.Props.C08
 import BevySyncModel.Props.C09
 import BevySyncModel.Props.C10
